@@ -157,6 +157,11 @@ def check_model(model, solver):
     def bad(key, text):
         out.append((key, f"[{solver}] {text}"))
 
+    # the order of the model's lists is not the order of the solver's columns / rows: on every other model the lists are reversed
+    # (a public list operation) before anything is solved - values must be attached to identifiers, never to positions
+    if (len(model.reactions) + len(model.metabolites)) % 2 == 0:
+        model.reactions.reverse()
+        model.metabolites.reverse()
     if solver is not None:
         model.solver = solver
     lp, c, direction = oracle_lp.fba_lp(model)
